@@ -1229,10 +1229,16 @@ func (s *Server) subscriptionsListen(ctx context.Context, req *SubscriptionsList
 	}
 	s.mu.Unlock()
 	defer func() {
+		// Remove only what this request registered: the session may hold
+		// subscriptions made by other subscriptions/listen requests.
 		s.mu.Lock()
-		delete(s.toolChangeSubscriptions, req.Session)
-		delete(s.promptChangeSubscriptions, req.Session)
-		delete(s.resourceChangeSubscriptions, req.Session)
+		for _, subs := range []map[*ServerSession]jsonrpc.ID{
+			s.toolChangeSubscriptions, s.promptChangeSubscriptions, s.resourceChangeSubscriptions,
+		} {
+			if id, ok := subs[req.Session]; ok && id == requestID {
+				delete(subs, req.Session)
+			}
+		}
 		s.mu.Unlock()
 	}()
 
